@@ -82,7 +82,54 @@ def run(ctx):
     res.append(rule_clear(facts))
     res.append(rule_infer(facts))
     res.append(rule_hdr(facts))
+    res.append(rule_sampleeof(facts))
     return res
+
+
+def rule_sampleeof(facts):
+    """Schema and dialect inference decode a sample of the first file. When the sample is the whole file, its last record counts even
+    without a trailing newline ('a,b\\n1,2' was inferred from the header alone: every column Boolean, the scan then failed on '1').
+    Decided: both sample decoders - ReadCsv::bind and the dialect inference it calls - contain a decode call with empty input (the
+    end-of-input signal; C17-EOFONLY decides that it is only issued when a read has shown the end of the file)."""
+    r = RuleResult("C17-SAMPLEEOF", "the inference sample decoders signal end of input when the sample is the whole file", floor=2)
+    bind = [x for x in facts.fns_matching(lambda i: "read_csv::ReadCsv" in i and "::bind::{closure#0}" in i and i.count("{closure") == 1)]
+    if not bind:
+        r.missing_anchor("ReadCsv::bind async body")
+        return r
+    fn = Fn(bind[0])
+
+    def has_eof(f2):
+        return any(c.name.endswith("CsvDecoder::decode") and len(c.args) > 1 and _is_empty_input(f2, c.args[1], c.bb) for c in f2.calls())
+
+    def reaches_eof(fid, depth=0, seen=None):
+        seen = seen or set()
+        if fid in seen or depth > 3:
+            return False
+        seen.add(fid)
+        rec = facts.fn(fid)
+        if rec is None:
+            return False
+        f2 = Fn(rec)
+        if has_eof(f2):
+            return True
+        return any(reaches_eof(c.name, depth + 1, seen) for c in f2.calls() if c.name.startswith("glaredb_ext_csv::"))
+
+    r.functions.add(fn.id)
+    ok = has_eof(fn)
+    r.inst({"fn": fn.id, "schema_sample_signals_eof": ok}, ok)
+    if not ok:
+        r.violate(fn.id, "sample-without-eof", "the schema sample is decoded without ever signalling end of input: a last record without newline is invisible to "
+                  "type inference", bind[0]["file"], bind[0]["line"])
+    dial = [c for c in fn.calls() if c.name.startswith("glaredb_ext_csv::dialect::DialectOptions::infer")]
+    if not dial:
+        r.missing_anchor("ReadCsv::bind: no call into dialect inference")
+        return r
+    ok = any(reaches_eof(c.name) for c in dial)
+    r.inst({"fn": fn.id, "dialect_inference_called": sorted({c.name.rsplit("::", 1)[-1] for c in dial}), "some_path_signals_eof": ok}, ok)
+    if not ok:
+        r.violate(fn.id, "dialect-sample-without-eof", "none of the dialect inference entry points called from bind signals end of input: with a single unterminated "
+                  "data row fewer than two records are seen and the dialect falls back to the default", bind[0]["file"], dial[0].line)
+    return r
 
 
 def rule_hdr(facts):
@@ -245,24 +292,105 @@ def _is_empty_input(fn, op, at):
 
 
 def _from_read(fn, op, at):
+    """the operand is the byte count a read returned (directly, or - in an async body - the Ready value of polling a future that a
+    read call produced and that was parked in the coroutine state)"""
     if op[0] not in ("c", "m"):
         return False
     o = fn.origin(op, at=at, through_calls=("::branch", "::unwrap", "::expect"))
-    return o[0] == "call" and "read" in o[1].name.rsplit("::", 1)[-1]
+    if o[0] != "call":
+        return False
+    if "read" in o[1].name.rsplit("::", 1)[-1]:
+        return True
+    if o[1].name.endswith("Future>::poll") and o[1].args:
+        fo = fn.origin(o[1].args[0], at=o[1].bb, through_calls=("new_unchecked", "Pin::<Ptr>::new", "into_future", "::deref_mut", "::as_mut"))
+        if fo[0] == "call":
+            return "read" in fo[1].name.rsplit("::", 1)[-1]
+        if fo[0] == "arg" and len(fo) > 2:
+            key = [p_ for p_ in fo[2] if isinstance(p_, list) and p_[0] in ("d", "f") and (p_[0] == "d" or p_[2].startswith("closure:"))]
+            for b, i_, pl, rv, ln in fn.assigns():
+                pk = [p_ for p_ in (pl[1] if len(pl) > 1 else []) if isinstance(p_, list) and p_[0] in ("d", "f") and (p_[0] == "d" or p_[2].startswith("closure:"))]
+                if key and pk == key and rv[0] == "use" and rv[1][0] in ("c", "m"):
+                    so = fn.origin(rv[1], at=b, through_calls=("into_future",))
+                    if so[0] == "call" and "read" in so[1].name.rsplit("::", 1)[-1]:
+                        return True
+    return False
+
+
+def _cond_kind(fn, t, b):
+    """classify a switch condition: 'read' (decided by a read's byte count), ('param', k) (a bool parameter), or None"""
+    if t[1][0] not in ("c", "m"):
+        return None
+    if _from_read(fn, t[1], b):
+        return "read"
+    o = fn.origin(t[1], at=b)
+    if o[0] == "rv" and o[1][0] == "bin" and o[1][1] in ("Eq", "Ne", "Lt", "Le", "Gt", "Ge"):
+        if _from_read(fn, o[1][2], b) or _from_read(fn, o[1][3], b):
+            return "read"
+    if o[0] == "arg" and not (len(o) > 2 and o[2]):
+        return ("param", o[1])
+    return None
+
+
+def _eof_guarded(facts, fns, fid, bb, depth=0):
+    """Is block `bb` of function `fid` only executed when a read has shown the end of the input?  Either a branch on a read's byte
+    count edge-dominates it; or a branch on a bool parameter does and every caller passes `false` or passes `true` from a site that is
+    itself guarded; or nothing in this function decides and every call site of the function is guarded (wrapper)."""
+    from .mir import switch_edges
+    if depth > 3 or fid not in fns:
+        return False, "call chain too deep / function not found"
+    fn = fns[fid]
+    params = []
+    for b in range(fn.n):
+        t = fn.term(b)
+        if t[0] != "switch" or not any(fn.edge_dominates(b, tgt, bb) for _v, tgt in switch_edges(t)):
+            continue
+        k = _cond_kind(fn, t, b)
+        if k == "read":
+            return True, "branch on a read's byte count"
+        if k:
+            params.append(k[1])
+    callers = []
+    for cid, cfn in fns.items():
+        for c in cfn.calls():
+            if c.name == fid:
+                callers.append((cid, cfn, c))
+    if not callers:
+        return False, "no branch on a read count and no caller inside the crate to carry the obligation"
+    for cid, cfn, c in callers:
+        passes_false = False
+        for k in params:
+            idx = k - 1
+            if idx < len(c.args):
+                kc = op_const(c.args[idx]) if c.args[idx][0] == "k" else None
+                if kc and kc.get("k") == "int" and kc.get("v") == 0:
+                    passes_false = True
+                elif c.args[idx][0] in ("c", "m"):
+                    o = cfn.origin(c.args[idx], at=c.bb)
+                    if o[0] == "rv" and o[1][0] == "bin" and (_from_read(cfn, o[1][2], c.bb) or _from_read(cfn, o[1][3], c.bb)):
+                        passes_false = True      # the flag itself is the read-count comparison
+        if passes_false:
+            continue
+        ok, why = _eof_guarded(facts, fns, cid, c.bb, depth + 1)
+        if not ok:
+            return False, f"caller {cid.rsplit('::', 2)[-2]}::{cid.rsplit('::', 1)[-1]} line {c.line}: {why}"
+    return True, "every caller passes false or calls from a site behind a branch on a read's byte count"
 
 
 def rule_eofonly(facts):
     """The dual of C17-EOF: csv_core treats empty input as END OF DATA and completes the record in progress. Feeding it empty
     input where the end of the file has not been observed (e.g. after a fixed-size sample) turns a record cut by the buffer
     boundary into a complete, shorter record. Every decode call with constant empty input therefore sits behind a branch on the byte
-    count some read returned."""
-    from .mir import switch_edges
+    count some read returned - in the same function, or (for helpers taking an `at end` flag / wrappers) at every call site."""
     r = RuleResult("C17-EOFONLY", "the end-of-input signal (decode with empty input) is only issued behind a branch on the byte count a read returned", floor=1)
     n_dec = 0
+    fns = {}
     for rec in facts.all_fns(["glaredb_ext_csv"]):
-        if "CsvDecoder::decode" not in str(rec["bbs"]):
+        if "::tests::" in rec["id"]:
             continue
-        fn = Fn(rec)
+        fns[rec["id"]] = Fn(rec)
+    for fid, fn in fns.items():
+        if "CsvDecoder::decode" not in str(fn.rec["bbs"]):
+            continue
         for c in fn.calls():
             if not c.name.endswith("CsvDecoder::decode") or len(c.args) < 2:
                 continue
@@ -271,23 +399,11 @@ def rule_eofonly(facts):
                 continue
             r.functions.add(fn.id)
             r.call_sites += 1
-            ok = False
-            for b in range(fn.n):
-                t = fn.term(b)
-                if t[0] != "switch" or t[1][0] not in ("c", "m"):
-                    continue
-                on_count = _from_read(fn, t[1], b)
-                if not on_count:
-                    for s_ in fn.bbs[b]["s"]:
-                        if s_[0] == "a" and s_[1] == [t[1][1][0], []] and s_[2][0] == "bin" and s_[2][1] in ("Eq", "Ne", "Lt", "Le", "Gt", "Ge"):
-                            on_count = _from_read(fn, s_[2][2], b) or _from_read(fn, s_[2][3], b)
-                if on_count and any(fn.edge_dominates(b, tgt, c.bb) for _v, tgt in switch_edges(t)):
-                    ok = True
-                    break
-            r.inst({"fn": fn.id, "line": c.line, "behind_branch_on_read_count": ok}, ok)
+            ok, why = _eof_guarded(facts, fns, fid, c.bb)
+            r.inst({"fn": fn.id, "line": c.line, "behind_branch_on_read_count": ok, "how": why}, ok)
             if not ok:
                 r.violate(fn.id, "end-of-input-without-eof", f"CsvDecoder::decode is given empty input (csv_core's end-of-data signal) at line {c.line} without a "
-                          "branch on what a read returned: a record cut off by the buffer boundary is completed as if the file ended there", rec["file"], c.line)
+                          f"branch on what a read returned ({why}): a record cut off by the buffer boundary is completed as if the file ended there", fn.rec["file"], c.line)
     r.notes.append(f"{n_dec} decode call sites examined")
     return r
 
@@ -295,7 +411,8 @@ CLAIM = {
     "text": "Must-pass-through on the MIR of CsvReader::poll_pull (decoder called on every path to `stream_exhausted: true`) and a "
             "reset rule on CsvReader::prepare: the csv_core end-of-input protocol, a necessary condition for returning the last record of "
             "any file lacking a trailing newline. Record contents/type inference are runtime values and are not decided. Plus the dual: the end-of-input signal (decode with constant empty input) is issued only behind a branch on the byte count a read returned, so a sample or buffer boundary is never treated as the end of the file. Plus: CSV fields become text only through the checked from_utf8 on decoded fields (no unchecked conversion, no validation of raw read chunks); ByteRecords resets a length only behind a comparison that reads it; every candidate-type transition of type inference goes to a type that accepts all values of the type it leaves."
-            " Plus HDR: the empty field is valid for every candidate type, so header detection does not eat a first data row that has a NULL.",
+            " Plus HDR: the empty field is valid for every candidate type, so header detection does not eat a first data row that has a NULL."
+            " Plus SAMPLEEOF: the inference sample decoders (schema and dialect) signal end of input when the sample is the whole file; EOFONLY follows the at-end flag through helper parameters and wrappers to the read-count comparison at the call site.",
     "note": "trusted: rustc MIR and csv_core's documented contract (empty input = end of data; reader stays in End until reset)",
     "technique": "static analysis: MIR must-pass-through / API-protocol rule (rustc_private driver)",
 }
